@@ -173,6 +173,8 @@ class VdiSuite(ReaderSuite):
 
 SUITES = {"vdi": VdiSuite()}
 
-from harness.readers import under_O, under_debug  # noqa: E402
+from harness.readers import under_O, under_debug, under_bufsize  # noqa: E402
 SUITES["vdi_pyO"] = under_O(SUITES["vdi"])
 SUITES["vdi_dbg"] = under_debug(SUITES["vdi"])
+SUITES["vdi_buf12288"] = under_bufsize(SUITES["vdi"], 12288)
+SUITES["vdi_buf1536"] = under_bufsize(SUITES["vdi"], 1536, n=4)
